@@ -109,6 +109,8 @@ def tamperings(k, others, rng):
             if si == 0 and len(ks) >= 1 and h == 0 and len(k.chains[i][0]) >= 1:
                 r = k.chains[i][0]
                 t = k.copy(); nk = list(ks); nk[0] = (0, r[-1:] + sk[:-1], b''); t.chains[i] = (r[:-1], nk); yield 'byte shifted from the right name into its first secret', t
+    t = k.copy(); t.chains = []; yield 'every right removed', t
+    t = k.copy(); t.chains = []; t.sig = b''; yield 'every right removed, signature stripped', t
     t = k.copy(); t.sig = b''; yield 'signature stripped', t
     if k.sig:
         t = k.copy(); t.sig = bytes([k.sig[0] ^ 1]) + k.sig[1:]; yield 'signature altered', t
